@@ -159,6 +159,13 @@ pub struct BfsStats {
 
 /// Breadth-first exploration up to `depth`. Returns statistics; violations go to `rep`.
 pub fn bfs(cfg: &Cfg, apps: &Arc<Vec<Vec<L>>>, proto: &dyn Monitor, depth: usize, max_states: usize, rep: &mut Report) -> BfsStats {
+    bfs_with(cfg, apps, proto, depth, max_states, rep, None)
+}
+
+pub type Visit<'a> = &'a (dyn Fn(&[Event], &mut Report) + Sync);
+
+/// Like `bfs`; `visit` is called once for every distinct state (with a history reaching it) when it is expanded.
+pub fn bfs_with(cfg: &Cfg, apps: &Arc<Vec<Vec<L>>>, proto: &dyn Monitor, depth: usize, max_states: usize, rep: &mut Report, visit: Option<Visit>) -> BfsStats {
     let mut seen: HashSet<u128> = HashSet::new();
     let mut frontier: Vec<Vec<Event>> = vec![vec![]];
     {
@@ -176,6 +183,9 @@ pub fn bfs(cfg: &Cfg, apps: &Arc<Vec<Vec<L>>>, proto: &dyn Monitor, depth: usize
                 let mut n = 0u64;
                 if base.w.dead.is_some() {
                     return (out, local, n);
+                }
+                if let Some(v) = visit {
+                    v(hist, &mut local);
                 }
                 let evs = base.mon.enabled(&base.w);
                 drop(base);
